@@ -377,6 +377,13 @@ class PathEnum:
                 elif path == "std::ops::Try::branch" and args and args[0][0] == "call" and args[0][1] == "std::ops::FromResidual::from_residual":
                     # `?` applied to a value that is itself a propagated residual: always breaks
                     ct = ("agg", "std::ops::ControlFlow", "Break", (("residual", args[0]),))
+                elif path == "std::ops::Try::branch" and args and args[0][0] != "agg":
+                    # `?` on a value whose variant an earlier match on this path already established
+                    known = self._known_variant(conds, events, args[0], ((c.get("self_ty") or {}).get("path") or ""))
+                    if known == "continue":
+                        ct = ("agg", "std::ops::ControlFlow", "Continue", (("payload", args[0]),))
+                    elif known == "break":
+                        ct = ("agg", "std::ops::ControlFlow", "Break", (("residual", args[0]),))
                 elif path == "std::ops::FromResidual::from_residual" and args and args[0][0] == "agg" and args[0][2] == "Err":
                     ct = args[0]
                 elif path in ("std::option::Option::<T>::ok_or",) and len(args) == 2 and args[0][0] == "agg" and args[0][2] in ("Some", "None"):
@@ -461,6 +468,25 @@ class PathEnum:
             rb = self.rootbind.get(int(num)) if num.isdigit() else None
             return None if rb is None else rb + base[len("(*_%s)" % num):]
         return None
+
+    def _known_variant(self, conds, events, x, self_ty):
+        """'continue' / 'break' / None: has this path already branched on the variant of the Result/Option x?"""
+        if self_ty not in ("std::result::Result", "std::option::Option"):
+            return None
+        subj = _discr_subject(("discr", x))
+        out = None
+        for (t, c, _bb) in conds:
+            if t[0] != "discr" or _discr_subject(t) != subj:
+                continue
+            if t[1] != x and _touched_between(events, t, subj):
+                continue
+            zero = c == ("eq", 0) or (c[0] == "ne" and 1 in c[1] and 0 not in c[1])
+            one = c == ("eq", 1) or (c[0] == "ne" and 0 in c[1] and 1 not in c[1])
+            if self_ty == "std::result::Result":
+                out = "continue" if zero else "break" if one else out
+            else:
+                out = "continue" if one else "break" if zero else out
+        return out
 
     def _lower(self, path, args, t, env, conds, trace, events, onpath, bb):
         """`opt.map(|x| ..)`, `opt.map_or_else(|| .., |x| ..)`, `res.and_then(|x| ..)` ... with closure literals:
@@ -693,6 +719,8 @@ def _discr_subject(t):
             x = x[1]
         elif x[0] == "call" and x[1] in _VARIANT_KEEPING and len(x[2]) == 1:
             x = x[2][0]
+        elif x[0] == "call" and x[1] == "std::result::Result::<T, E>::map_err" and len(x[2]) == 2:
+            x = x[2][0]      # Ok stays Ok, Err stays Err
         else:
             return x
 
